@@ -212,6 +212,14 @@ class KernelProof(object):
         self.fn = self.tu.functions[self.fname]
         self.D = self.ts.max_pd
         self.oriented2d = kind != "Iq" and self.ts.is_oriented
+        self.magnetic = kind == "Imagnetic"
+        # slots of the SLD parameters (overwritten per spin channel in the magnetic kernel)
+        self.sld_slots = []
+        if self.magnetic:
+            for p in self.info.parameters.kernel_parameters:
+                if p.type == "sld":
+                    slot, ln = self.ts.slots[p.id]
+                    self.sld_slots += list(range(slot, slot + ln))
         self.nout = 2 if (self.ts.have_Fq and kind == "Iq") else 1
         reg.function_under_contract("generated:%s (kernel_iq.c expanded for %s)" % (self.fname, model),
                                     "sasmodels/kernel_iq.c", 0, 0, self.tu.func_text(self.fn))
@@ -299,7 +307,7 @@ class KernelProof(object):
     # spec of the parameter vector and weight at mesh step s
     def base(self, m):
         ts = self.ts
-        if self.oriented2d and self.kind == "Iqxy" and self._uses_jitter():
+        if self.oriented2d and self.kind != "Iq" and self._uses_jitter():
             zero = [ts.theta_offset, ts.theta_offset + 1] + ([ts.theta_offset + 2] if ts.has_psi else [])
             if m in zero:
                 return z3.RealVal(0)
@@ -326,8 +334,8 @@ class KernelProof(object):
         """(guard, wproj, dq, dq1, form, shell, radius) contributions for vector L, weight w0."""
         ts, info = self.ts, self.info
         valid = valid_spec(info, ts, L)
-        if self.oriented2d:
-            k180 = z3.RealVal(_lit_pi_180(self.tu))
+        if self.oriented2d and (_has_fn(self.tu, "Iqac") or _has_fn(self.tu, "Iqabc")):
+            k180 = cvc.cfloat(_lit_pi_180(self.tu))
             dtheta = L(ts.theta_offset)
             cosd = uf("cos", 1)(dtheta * k180)
             wproj = z3.If(cosd >= 0, cosd, -cosd) * w0
@@ -340,9 +348,10 @@ class KernelProof(object):
             shell = uf("shell_volume", len(vol_args))(*vol_args) if vol_args else z3.Real("shell_volume()")
         else:
             shell = form
-        if not _has_fn(self.tu, "form_volume"):
+        if not ts.vol_pars or not _has_fn(self.tu, "form_volume"):
+            # no volume parameters: the model is not normalised by a volume (V = 1)
             form = shell = z3.RealVal(1)
-        if _has_fn(self.tu, "radius_effective"):
+        if ts.vol_pars and _has_fn(self.tu, "radius_effective"):
             ra = [to_real(self.mode)] + vol_args
             reff = uf("radius_effective", len(ra))(*ra)
         else:
@@ -358,9 +367,18 @@ class KernelProof(object):
             else:
                 a = [qv] + iq_args
                 F2 = uf("Iq", len(a))(*a)
+        elif self.magnetic:
+            qx, qy = self.Qf(2 * jq), self.Qf(2 * jq + 1)
+            F2 = self.magnetic_sum(L, qx, qy)
         else:
             qx, qy = self.Qf(2 * jq), self.Qf(2 * jq + 1)
-            if self.oriented2d:
+            if _has_fn(self.tu, "Iqxy") and not _has_fn(self.tu, "Iqac") and not _has_fn(self.tu, "Iqabc"):
+                # model-supplied Iqxy(qx, qy, pars..., orientation pars...): view angles passed through
+                a = [qx, qy] + iq_args
+                for t, p in enumerate(self.info.parameters.orientation_parameters):
+                    a.append(self.Vf(ts.theta_offset + 2 + t))
+                F2 = uf("Iqxy", len(a))(*a)
+            elif self.oriented2d:
                 F2 = self.oriented_call(L, qx, qy, iq_args)
             elif ts.have_Fq:
                 a = [uf("sqrt", 1)(qx * qx + qy * qy)] + iq_args
@@ -370,10 +388,53 @@ class KernelProof(object):
                 F2 = uf("Iq", len(a))(*a)
         return G, wproj, F2, F1, form, shell, reff
 
+    def call_2d(self, L, qx, qy):
+        """The non-magnetic 2-D model call for parameter vector L at (qx, qy)."""
+        ts = self.ts
+        iq_args = ts.args(ts.iq_pars, L)
+        if _has_fn(self.tu, "Iqxy") and not _has_fn(self.tu, "Iqac") and not _has_fn(self.tu, "Iqabc"):
+            a = [qx, qy] + iq_args
+            for t, p in enumerate(self.info.parameters.orientation_parameters):
+                a.append(self.Vf(ts.theta_offset + 2 + t))
+            return uf("Iqxy", len(a))(*a)
+        if self.oriented2d:
+            return self.oriented_call(L, qx, qy, iq_args)
+        a = [uf("sqrt", 1)(qx * qx + qy * qy)] + iq_args
+        if ts.have_Fq:
+            return uf("Fq.out1", len(a))(*a)
+        return uf("Iq", len(a))(*a)
+
+    def magnetic_sum(self, L, qx, qy):
+        """sum over the six cross-section terms with weight > 1e-8, every SLD slot
+        replaced by mag_sld(xs, ...) of the nominal SLD and its magnetisation; 0 at q = 0."""
+        ts = self.ts
+        NP = ts.npars
+        k180 = cvc.cfloat(_lit_pi_180(self.tu))
+        sin, cos = uf("sin", 1), uf("cos", 1)
+        ut, up = self.Vf(NP + 4) * k180, self.Vf(NP + 5) * k180
+        cmt, smt, cmp_, smp = cos(ut), sin(ut), cos(up), sin(up)
+        total = z3.RealVal(0)
+        msld = uf("mag_sld", 11, argsorts=[I] + [R] * 10)
+        for xs in range(6):
+            w = uf("spin_weight%d" % xs, 2)(self.Vf(NP + 2), self.Vf(NP + 3))
+
+            def Lx(m, xs=xs):
+                mm = z3.simplify(m) if not isinstance(m, int) else z3.IntVal(m)
+                mi = mm.as_long() if z3.is_int_value(mm) else None
+                if mi is not None and mi in self.sld_slots:
+                    sk = self.sld_slots.index(mi)
+                    base = NP + 6 + 3 * sk
+                    return msld(z3.IntVal(xs), qx, qy, cmt, smt, cmp_, smp, self.Vf(mi + 2),
+                                self.Vf(base), self.Vf(base + 1), self.Vf(base + 2))
+                return L(m)
+            total = total + z3.If(w > cvc.cfloat(1e-8), w * self.call_2d(Lx, qx, qy), 0)
+        qsq = qx * qx + qy * qy
+        return z3.If(qsq > cvc.cfloat(1e-16), total, z3.RealVal(0))
+
     def oriented_call(self, L, qx, qy, iq_args):
         from contracts import c05
         ts = self.ts
-        k = z3.RealVal(_lit_pi_180(self.tu))
+        k = cvc.cfloat(_lit_pi_180(self.tu))
         sin, cos = uf("sin", 1), uf("cos", 1)
         th, ph = self.Vf(ts.theta_offset + 2), self.Vf(ts.theta_offset + 3)
         ang = {"theta": th, "phi": ph, "dtheta": L(ts.theta_offset), "dphi": L(ts.theta_offset + 1)}
@@ -399,7 +460,7 @@ class KernelProof(object):
     # rotation helpers replaced by their C05 contracts
     def install_rotation_contracts(self, ex):
         from contracts import c05
-        k = z3.RealVal(_lit_pi_180(self.tu))
+        k = cvc.cfloat(_lit_pi_180(self.tu))
         sin, cos = uf("sin", 1), uf("cos", 1)
 
         def sc_of(names, vals):
@@ -440,6 +501,18 @@ class KernelProof(object):
             ex_.write(pc.target, f["R31"].value * qx + f["R32"].value * qy, st)
         ex.contracts.update(qac_rotation=qac_rotation, qac_apply=qac_apply,
                             qabc_rotation=qabc_rotation, qabc_apply=qabc_apply)
+
+        def set_spin_weights(ex_, st, args):
+            # contract (C06): weight[k] = documented channel weight k of (up_frac_i, up_frac_f)
+            i_in, f_in, w = args
+            for xs in range(6):
+                w.target.store(z3.simplify((w.offset if not isinstance(w.offset, int) else z3.IntVal(w.offset)) + xs),
+                               uf("spin_weight%d" % xs, 2)(to_real(i_in), to_real(f_in)), st.live())
+
+        def mag_sld(ex_, st, args):
+            f = uf("mag_sld", 11, argsorts=[I] + [R] * 10)
+            return f(to_int(args[0]), *[to_real(a) for a in args[1:]])
+        ex.contracts.update(set_spin_weights=set_spin_weights, mag_sld=mag_sld)
 
     def stride_of(self, arr, bound):
         """window of one iteration in `result`: pairs (F^2, F) when the loop runs to nq in an Fq kernel"""
@@ -553,9 +626,11 @@ class KernelProof(object):
             L = ex_.var(st, "local_values").fields["vector"]
             cs = []
             for m in range(kp.ts.npars):
+                if m in kp.sld_slots:
+                    continue          # scratch slots of the magnetic kernel
                 cs.append(z3.Implies(z3.And(*[kp.p[j] != m for j in range(k + 1)]),
                                      L.at(m) == X(ex_, st, k, m)))
-            return z3.And(*cs)
+            return z3.And(*cs) if cs else z3.BoolVal(True)
 
         def A(ex_, st, k):
             step = ex_.val(st, "step")
@@ -639,7 +714,8 @@ class KernelProof(object):
             Lv = ex_.var(st, "local_values").fields["vector"]
             w0 = ex_.val(st, "weight0")
             # instantiation premise of the body contract
-            inst = [Lv.at(m) == kp.P(step, m) for m in range(kp.ts.npars)]
+            inst = [Lv.at(m) == kp.P(step, m) for m in range(kp.ts.npars) if m not in kp.sld_slots]
+            inst = inst or [z3.BoolVal(True)]
             ex_.oblige("%s.kernel.%s.body_entry.parameter_vector_is_P_of_step" % (prop, tag), st,
                        z3.And(*inst))
             ex_.oblige("%s.kernel.%s.body_entry.weight_is_W_of_step" % (prop, tag), st,
@@ -665,6 +741,9 @@ class KernelProof(object):
                 if isinstance(o, CStruct) and o.name == "local_values":
                     continue
                 havoc_obj(o, "body")
+            for slot in kp.sld_slots:
+                cvc._hv[0] += 1
+                Lv.store(z3.IntVal(slot), z3.Real("sld_scratch!%d!%d" % (slot, cvc._hv[0])), g)
             # unfolding of the ghost sums at this step
             for key_ in acc_keys:
                 st.facts.append(kp.SUM[key_](kp.B, step + 1) == kp.SUM[key_](kp.B, step) + kp.T[key_](step))
@@ -763,10 +842,17 @@ class KernelProof(object):
             goals["result_q"] = kp.result.at(kp.jq) == Rf(kp.jq) + z3.If(G, wproj * contrib, 0)
             jf = z3.Int("jf")
             captured["obl"] = [(nme, list(st.facts) + [g_entry], g) for nme, g in goals.items()]
+            qsq_atom = []
+            if kp.magnetic:
+                qx_, qy_ = kp.Qf(2 * kp.jq), kp.Qf(2 * kp.jq + 1)
+                qsq_atom = [qx_ * qx_ + qy_ * qy_ > cvc.cfloat(1e-16)]
+            captured["cases"] = {"result_q": [valid_spec(kp.info, kp.ts, lambda m: Lf(m)), wproj > kp.cutoff] + qsq_atom}
             captured["obl"].append(("writes_only_q_slots", list(st.facts) + [g_entry, z3.Or(jf < 0, jf >= kp.nout * kp.nq)],
                                     kp.result.at(jf) == Rf(jf)))
             Lafter = lv.fields["vector"]
-            captured["obl"].append(("parameter_vector_unchanged", list(st.facts) + [g_entry, jf >= 0, jf < kp.ts.npars],
+            captured["obl"].append(("parameter_vector_unchanged",
+                                    list(st.facts) + [g_entry, jf >= 0, jf < kp.ts.npars]
+                                    + [jf != s_ for s_ in kp.sld_slots],
                                     Lafter.at(jf) == Lf(jf)))
             raise _Done()
         ex.block_hook = block_hook
@@ -787,10 +873,15 @@ class KernelProof(object):
         for name, assumptions, goal in ex.obligations:
             reg.prove(name, assumptions, goal, function=where, engine="cvc", timeout_ms=60000)
         for nme, assumptions, goal in captured.get("obl", []):
-            reg.prove("%s.kernel.%s.body_contract.%s" % (prop, tag, nme), assumptions, goal,
-                      function=where, engine="cvc", timeout_ms=60000,
+            atoms = captured.get("cases", {}).get(nme)
+            kw = dict(function=where, engine="cvc", timeout_ms=60000,
                       nl=nme not in ("writes_only_q_slots", "parameter_vector_unchanged"),
                       replay=self.replay)
+            oid = "%s.kernel.%s.body_contract.%s" % (prop, tag, nme)
+            if atoms and self.magnetic:
+                reg.prove_by_cases(oid, assumptions, goal, [a for a in atoms if not z3.is_true(z3.simplify(a))], **kw)
+            else:
+                reg.prove(oid, assumptions, goal, **kw)
         if "obl" not in captured:
             reg.undecided("%s.kernel.%s.body_contract" % (prop, tag), "body not reached", function=where)
 
@@ -839,7 +930,8 @@ def _lit_pi_180(tu):
 # --------------------------------------------------------------------------
 
 QUICK_KERNELS = [("sphere", "Iq"), ("cylinder", "Iq"), ("cylinder", "Iqxy"), ("parallelepiped", "Iqxy"),
-                 ("lamellar", "Iq"), ("hardsphere", "Iq"), ("fractal", "Iqxy")]
+                 ("lamellar", "Iq"), ("hardsphere", "Iq"), ("fractal", "Iqxy"), ("sphere", "Imagnetic"),
+                 ("cylinder", "Imagnetic")]
 
 
 def _kernel_job(sub, job):
@@ -859,6 +951,8 @@ def all_kernels():
         if callable(info.Iq):
             continue            # pure python model: no generated C kernel
         out += [(name, "Iq"), (name, "Iqxy")]
+        if info.parameters.nmagnetic > 0:
+            out.append((name, "Imagnetic"))
     return out
 
 
@@ -878,4 +972,5 @@ def orientation_clauses(reg, prop, tier):
 
 
 def magnetic_clauses(reg, prop, tier):
-    pass
+    kernel_contracts(reg, prop, tier, [("sphere", "Imagnetic"), ("cylinder", "Imagnetic"),
+                                       ("core_shell_sphere", "Imagnetic")])
